@@ -1,5 +1,10 @@
 #!/bin/bash
-# sweep_seeded.sh [runs] [pattern]: every seeded defect against the check of its property
+# sweep_seeded.sh [runs] [pattern]: every seeded defect against the check of its property.
+# runs = 0: the quick tier's own run count and time budget. With a run count the time
+# budget is lifted (SWEEP_BUDGET seconds, default 1200) so that the verdict does not depend
+# on how loaded the machine is; no further run is started once one has shown a violation.
 V=$(cd "$(dirname "$0")/.." && pwd)
 RUNS=${1:-0}; PAT=${2:-}
-for d in $V/seeded/*${PAT}*/; do $V/tools/run_seeded.sh $(basename $d) $RUNS --max-report 1 --min-candidates 80; done
+EXTRA=""
+if [ "$RUNS" != 0 ]; then EXTRA="--budget ${SWEEP_BUDGET:-1200}"; fi
+for d in $V/seeded/*${PAT}*/; do $V/tools/run_seeded.sh $(basename $d) $RUNS --max-report 1 --min-candidates 80 --stop-at-first $EXTRA ${SWEEP_FLAGS:-}; done
